@@ -152,22 +152,28 @@ def check(ctx):
                 if not ok:
                     ctx.violation("C16:new_event", "instrumenting only %s delivers an event that the fully instrumented program does not" % (sel,), {"case": c})
                 else:
-                    coq_items.append("(%s, (%s, %s))" % (clist(["(%d, %d)" % x for x in fsteps]), clist([str(names.index(x)) for x in sel]), clist(["(%d, %d)" % x for x in ssteps])))
-                    coq_meta.append((c, sel, names))
-    if coq_items:
-        text = CASE_HEADER + "From DV Require Import Engine.Modules.\n"
-        text += "Definition cases : list (list step * (list nat * list step)) :=\n  %s.\n" % clist(coq_items)
-        text += "Eval vm_compute in map (fun c => ok_subset (fst c) (fst (snd c)) (snd (snd c))) cases.\n"
-        ev = coq_eval(ctx.work, "cases_c16", text, timeout=600)
-        if not ev["ok"]:
-            ctx.broken.append("C16 model evaluation failed: " + ev["error"][-300:])
-        else:
-            import re
+                    coq_items.append((clist(["(%d, %d)" % x for x in fsteps]), clist([str(names.index(x)) for x in sel]), clist(["(%d, %d)" % x for x in ssteps])))
+                    coq_meta.append((c, sel, names, pi))
+    # one evaluation per package: the full run is defined once, every subset refers to it
+    import re
 
-            vals = re.findall(r"true|false", ev["values"][0]) if ev["values"] else []
-            if len(vals) != len(coq_items):
-                ctx.broken.append("C16 model evaluation returned %d verdicts for %d cases" % (len(vals), len(coq_items)))
-            for v, (c, sel, names) in zip(vals, coq_meta):
-                if v == "false":
-                    st["disagreements"] += 1
-                    ctx.violation("C16:not_projection", "the events delivered with %s instrumented are not the events of the fully instrumented program restricted to those files (order or multiplicity differs)" % (sel,), {"case": c})
+    by_pkg = {}
+    for item, meta in zip(coq_items, coq_meta):
+        by_pkg.setdefault(meta[3], []).append((item, meta))
+    for pi_, lst in sorted(by_pkg.items()):
+        full_txt = lst[0][0][0]
+        text = CASE_HEADER + "From DV Require Import Engine.Modules.\n"
+        text += "Definition full : list step := %s.\n" % full_txt
+        text += "Definition cases : list (list nat * list step) :=\n  %s.\n" % clist(["(%s, %s)" % (it[1], it[2]) for it, _m in lst])
+        text += "Eval vm_compute in map (fun c => ok_subset full (fst c) (snd c)) cases.\n"
+        ev = coq_eval(ctx.work, "cases_c16_%d" % pi_, text, timeout=900)
+        if not ev["ok"]:
+            ctx.broken.append("C16 model evaluation failed for package %d: %s" % (pi_, ev["error"][-300:]))
+            continue
+        vals = re.findall(r"true|false", ev["values"][0]) if ev["values"] else []
+        if len(vals) != len(lst):
+            ctx.broken.append("C16 model evaluation returned %d verdicts for %d cases (package %d)" % (len(vals), len(lst), pi_))
+        for v, (_it, (c, sel, names, _pi)) in zip(vals, lst):
+            if v == "false":
+                st["disagreements"] += 1
+                ctx.violation("C16:not_projection", "the events delivered with %s instrumented are not the events of the fully instrumented program restricted to those files (order or multiplicity differs)" % (sel,), {"case": c})
